@@ -15,9 +15,9 @@ OBLIGATIONS = [
   O('C18.c-crossproduct-exact', 'c18_pip.cpp', 'harness_crossproduct_exact', lift=[CP3, 'harness_crossproduct_exact'], backend=['z3', 'cvc5int', 'cadical'],
     bound='|coord|<=2^25', desc='double CrossProduct(p1,p2,p3) == exact integer cross product (exact-double lifting; side conditions |v|<=2^53 asserted)'),
   O('C18.c-pip-3', 'c18_pip.cpp', 'harness_pip', defs=['NV=3'], unwind=8, olevel='INL', replace={CP3: 'stub_cp'},
-    tiers='t', timeout=3000, bound='triangles, |coord|<=2^25, all query points', desc='PointInPolygon == exact even-odd/on-boundary classification (orientation kernel memoised per edge)'),
+    tiers='x', timeout=3000, bound='triangles, |coord|<=2^25, all query points', desc='PointInPolygon == exact even-odd/on-boundary classification (orientation kernel memoised per edge)'),
   O('C18.c-pip-4', 'c18_pip.cpp', 'harness_pip', defs=['NV=4'], unwind=10, olevel='INL', replace={CP3: 'stub_cp'},
-    bound='quadrilaterals (any, incl. self-intersecting), |coord|<=2^25', desc='PointInPolygon exact', tiers='t', timeout=1800),
+    bound='quadrilaterals (any, incl. self-intersecting), |coord|<=2^25', desc='PointInPolygon exact', tiers='x', timeout=1800),
 ]
 OBLIGATIONS += [
   O('C18.d-parallel-known', 'c18_segpt.cpp', 'harness_segpt_parallel', backend=['kissat', 'cadical', 'z3'], timeout=600, tiers='qt',
